@@ -263,7 +263,18 @@ func main() {
 			if *search {
 				g.Tier = "thorough"
 			}
-			gen(g)
+			func() {
+				// generators call into the repository (encoders, to build inputs): a panic there is a finding, not a crash
+				defer func() {
+					if r := recover(); r != nil {
+						rep.Panics++
+						rep.Violations = append(rep.Violations, Violation{Sig: *prop + "/panic-while-generating-inputs",
+							Desc: fmt.Sprintf("repository code panicked while the harness was building inputs (generator %d): %v\n%s", i, r, firstLines(string(debug.Stack()), 40)),
+							Op: J{"op": "none", "note": "panic inside a generator; see the stack in desc"}, Res: nil})
+					}
+				}()
+				gen(g)
+			}()
 		}
 	}
 	rep.Rule = rules[*prop]
